@@ -233,6 +233,7 @@ def check_case(ck, lib, gm, seed, nsteps, stats):
   nefc = int(d.nefc)
   case_nt = False
   rayonly_here = 0
+  collision_here = 0
   for i in range(ns):
     s = sensors[i]
     kind = s['kind']
@@ -270,6 +271,16 @@ def check_case(ck, lib, gm, seed, nsteps, stats):
     stats['cov']['%s|%s%s' % (tag, level, ('(' + r.note + ')') if r.note else '')] += 1
     if r.mode == 'none':
       continue
+    if kind == 'tendonactuatorfrc':
+      # constellation counter: a NON-tendon actuator with a non-zero force whose transmission target id equals the
+      # sensed tendon id numerically (must not be counted by the sensor)
+      t_id = int(m.sensor_objid[i])
+      for a_ in range(int(m.nu)):
+        if (int(m.actuator_trntype[a_]) != E.mjTRN_TENDON and int(m.actuator_trnid[a_][0]) == t_id and
+            abs(float(d.actuator_force[int(m.actuator_outadr[a_])])) > 1e-6):
+          stats['tendonact_collision'] = stats.get('tendonact_collision', 0) + 1
+          collision_here += 1
+          break
     if kind == 'touch' and getattr(r, 'n_rayonly', 0):
       stats['touch_rayonly'] = stats.get('touch_rayonly', 0) + 1
       rayonly_here += 1
@@ -342,6 +353,15 @@ def check_case(ck, lib, gm, seed, nsteps, stats):
   stats['samebody_excluded'] = stats.get('samebody_excluded', 0) + info.get('excluded_same_body_pairs', 0)
   if nefc > 0:
     stats['nefc>0'] += 1
+  if info.get('family') == 'tendonact':
+    # witness: a tendonactuatorfrc sensor coexisting with a forceful non-tendon actuator whose target id equals the
+    # tendon id
+    ck.case(nontrivial=collision_here > 0, key=(gm.xml, seed, nsteps),
+            sample=dict(family='tendonact', sensors=[s['xml'] for s in sensors], seed=seed, nsteps=nsteps,
+                        id_collision_sensors=collision_here,
+                        readings=[data[adr[i]:adr[i] + dim[i]].tolist() for i in range(ns)][:8]),
+            labels=['tendonact-family', 'tendonactfrc:id-collision' if collision_here else 'tendonactfrc:no-id-collision'])
+    return
   if mode == 'settle':
     # touch family: the non-triviality witness is a touch sensor with a contact whose point is OUTSIDE the zone while
     # its normal ray hits it (re-projection clause)
@@ -805,6 +825,10 @@ def main(ck):
   ck.run_hypothesis(test, st.tuples(gs.touch_models(), mg.state_seed(), st.integers(5, 40)), ck.budget(150, 2500),
                     name='touch-family')
   ck.extra['touch_sensors_with_ray_only_hit'] = stats.get('touch_rayonly', 0)
+  # tendon-actuator-force family: non-tendon actuators whose target id coincides with the sensed tendon id
+  ck.run_hypothesis(test, st.tuples(gs.tendonact_models(), mg.state_seed(), st.integers(0, 2)), ck.budget(120, 2000),
+                    name='tendonact-family')
+  ck.extra['tendonactfrc_sensors_with_id_collision'] = stats.get('tendonact_collision', 0)
   static_acc_probe(ck, lib, ck.budget(20, 300))
   delay_probe(ck, lib, ck.budget(40, 600))
   ekinetic_probe(ck, lib, ck.budget(30, 300))
